@@ -7,6 +7,7 @@ CONSTANTS
   P = 1
   W = 1
   Strict = FALSE
+  StrictHeal = FALSE
   PortOps <- NoOps
   OpPorts <- NoOpPorts
   Fresh <- NoFresh
